@@ -1145,6 +1145,33 @@ func rcHugeInvalid(c *Ctx) {
 		oracle = fmt.Sprintf("ReverseComplement of a valid %d-base sequence is wrong", n)
 	}
 	c.add(Case{Kind: "rc-huge", Nontrivial: true, Oracle: oracle, Note: fmt.Sprintf("ReverseComplement(nil, %d valid bases)", n)})
+	// the same appended to destinations that already hold bytes (with and without spare capacity): the prefix stays,
+	// the appended part is the reverse complement
+	for _, m := range []int{n, 1 << 20, 1<<20 + 1<<18 + 3, 3<<19 - 1} {
+		for _, pl := range []int{1, 7, 4096} {
+			if m > len(src) {
+				src = append(src, c.bytesFrom([]byte("ACGTacgtNn"), m-len(src))...)
+			}
+			s := src[:m]
+			w := make([]byte, m)
+			for i, b := range s {
+				w[m-1-i] = comp(b)
+			}
+			prefix := c.text(pl, "")
+			for _, spare := range []int{0, m + 64} {
+				dst := make([]byte, pl, pl+spare)
+				copy(dst, prefix)
+				var got []byte
+				st := safe(func() string { got = sequtil.ReverseComplement(dst, s); return "" })
+				oracle := ""
+				if st == "PANIC" || len(got) != pl+m || !bytes.Equal(got[:pl], prefix) || !bytes.Equal(got[pl:], w) {
+					oracle = fmt.Sprintf("ReverseComplement(dst, src) with %d bytes already in dst (spare capacity %d) and %d valid bases: result is not dst followed by the reverse complement", pl, spare, m)
+				}
+				c.add(Case{Kind: "rc-huge-append", Nontrivial: true, Oracle: oracle, Note: fmt.Sprintf("ReverseComplement(%d-byte dst, cap +%d, %d valid bases)", pl, spare, m)})
+			}
+		}
+	}
+	src = src[:n]
 	pos := []int{0, 1, n - 1, n - 2, n / 2, 1 << 19, 1<<19 - 1, 1 << 18, 1 << 16, 1<<20 - 1, 1 << 20, 4095, 4096}
 	for _, p := range pos {
 		for _, bad := range []byte{'X', 0x00, 0xff} {
@@ -1266,6 +1293,27 @@ func sequtilRound4_13(c *Ctx) {
 	for i := 0; i < c.n(60); i++ {
 		n := []int{61, 63, 64, 65, 66, 67, 127, 129, 130, 255, 257, 1001}[c.rng.Intn(12)]
 		s := c.bytesFrom([]byte("aAcCgGtT"), n)
+		if i%2 == 1 {
+			// homopolymer runs (poly-A tails, masked stretches) of 32..80 bases at aligned and unaligned offsets: their
+			// packed bytes are 0x00 / 0x55 / 0xaa / 0xff, which a shortcut may take from whatever the buffer held
+			for r := 0; r < 1+c.rng.Intn(3); r++ {
+				rl := 32 + c.rng.Intn(49)
+				if rl > n {
+					rl = n
+				}
+				at := c.rng.Intn(n - rl + 1)
+				if c.rng.Intn(2) == 0 {
+					at &^= 3
+				}
+				b := "AaCGTt"[c.rng.Intn(6)]
+				if r == 0 && i%4 == 1 {
+					b = "Aa"[c.rng.Intn(2)]
+				}
+				for j := at; j < at+rl; j++ {
+					s[j] = b
+				}
+			}
+		}
 		dl := c.rng.Intn(9)
 		spare := []int{0, 1, 3, n / 8, n/4 - 1, n / 4, n/4 + 1, n/4 + 2, n}[c.rng.Intn(9)]
 		if spare < 0 {
